@@ -182,7 +182,7 @@ extern MPT_INTERFACE(metatype) *_mpt_iterator_factor(MPT_STRUCT(value) *val)
 				errno = EINVAL;
 				return 0;
 			}
-			if ((c = mpt_cuint32(&iter, str + 1, 0, 0)) < 0) {
+			if ((c = mpt_cuint32(&iter, str + 1, 0, 0)) < 1) {
 				errno = EINVAL;
 				return 0;
 			}
